@@ -486,8 +486,10 @@ func (db *DB) delete(o Object) (err error) {
 	// unindexing object
 	s.unindex(o)
 	path = filepath.Join(db.oDir(o), s.filename(o))
-	if isFileAndExist(path) {
-		return os.Remove(path)
+	// the file is removed without checking first that it exists, otherwise
+	// an error while checking would leave the file of a deleted object
+	if err = os.Remove(path); os.IsNotExist(err) {
+		err = nil
 	}
 	return
 }
